@@ -198,6 +198,28 @@ def run_case(case, r):
     darsia.face_to_cell(g, u)
     r.check(np.array_equal(u, u0), cell("face_to_cell"), "face_to_cell leaves its input unchanged")
 
+    # the caller may keep ONE flux array and update it in place between calls (that is what an
+    # iterative solver does): the result follows the current contents, not the contents at the
+    # time of an earlier call with the same array object and the same grid
+    if nf >= 1:
+        u = np.arange(1.0, nf + 1)
+        for step, upd in enumerate(("first", "scaled", "assigned", "one-entry")):
+            if upd == "scaled":
+                u *= -2.0
+            elif upd == "assigned":
+                u[:] = np.arange(nf, 0, -1.0)
+            elif upd == "one-entry":
+                u[nf - 1] += 8.0
+            for ptu in (None, np.full(dim, 0.25)):
+                got = darsia.face_to_cell(g, u, ptu if ptu is None or dim > 1 else 0.25)
+                want = ref_f2c(u.copy(), np.full(dim, 0.5) if ptu is None else ptu)
+                r.check(np.array_equal(got, want), cell("face_to_cell-inplace-updated-input"), "the reconstruction follows the current contents of a flux array that was updated in place since the last call", update=upd, pt=None if ptu is None else ptu.tolist(), got=got, want=want)
+        c = np.ones(shape)
+        for upd, val in (("first", 1.0), ("scaled", 4.0), ("assigned", 2.0)):
+            c[...] = val
+            got = darsia.cell_to_face_average(g, c, "harmonic")
+            r.check(np.array_equal(got, np.full(nf, val)), cell("average-inplace-updated-input"), "the average follows the current contents of a cell array that was updated in place since the last call", update=upd, got=got)
+
     # ---- cell_to_face_average
     vals = [1.0, 2.0, 4.0]
     fields = []
@@ -239,9 +261,23 @@ def run_case(case, r):
             for j in range(dim):
                 ten[..., j, j] = comp[j]
             forms["tensor"] = (ten, comp)
+            # the same quantities stored with another dtype (labels, indicator-like integer fields,
+            # single precision): the values {1,2,4}, {-2,-1,1} are exact in all of them
+            if k % 4 == 0:
+                for dt in ("int64", "int32", "float32") + (("uint8",) if min(float(c.min()) for c in comp) >= 0 else ()):
+                    forms[f"scalar:{dt}"] = (fld.astype(dt), [fld] * dim)
+                    if dim > 1:
+                        forms[f"vector:{dt}"] = (np.stack(comp, axis=-1).astype(dt), comp)
             for name, (arg, compf) in forms.items():
                 got = darsia.cell_to_face_average(g, arg.copy(), mode)
                 want = ref_avg(compf, mode)
+                if ":" in name:
+                    tolr = 1e-6 if name.endswith("float32") else 1e-14
+                    if not (got.shape == want.shape and np.allclose(np.asarray(got, dtype=float), want, rtol=tolr, atol=0)):
+                        r.fail(cell(f"average-{mode}-{name.split(':')[0]}-dtype"), f"{mode} mean of the two neighbours, whatever the dtype the cell quantity is stored in", dtype=name.split(":")[1], field=k, got=got, want=want)
+                    else:
+                        r.ok()
+                    continue
                 same = got.shape == want.shape and (np.array_equal(got, want) if mode == "arithmetic" else np.allclose(got, want, rtol=1e-14, atol=0))
                 if not same and oks[name]:
                     oks[name] = False
